@@ -74,6 +74,11 @@ pub trait Director {
     fn flushed(&mut self) {}
     fn returned(&mut self, _op: &str, _result: &Value, _obs: &Value) {}
     fn new_transport(&mut self) {}
+    /// The client polled `read` again without yielding to the executor (a timer that is already
+    /// due keeps it spinning): how far does wall-clock time move meanwhile?
+    fn spin_adv(&mut self, _view: &View, _n: u32) -> Option<u64> {
+        None
+    }
 }
 
 // ------------------------------------------------------------------------------------------
@@ -92,7 +97,7 @@ pub struct Ctx {
     pub has_conn: bool,
     pub live: bool,
     pub last_snap: Option<Value>,
-    pub verbose_snap: bool,
+    pub spin: u32,
 }
 
 pub type Shared = Rc<RefCell<Ctx>>;
@@ -112,6 +117,18 @@ impl Ctx {
 
     pub fn rec(&mut self, event: Value) {
         self.out.push(event.to_string());
+    }
+
+    fn read_pending(&mut self, want: usize) {
+        self.rec(json!({"e":"rpend","want":want}));
+        self.spin += 1;
+        if self.spin >= 2 {
+            let view = self.view();
+            if let Some(to) = self.dir.spin_adv(&view, self.spin) {
+                vclock::set_ms(to);
+                self.rec(json!({"e":"adv","to":vclock::now_ms()}));
+            }
+        }
     }
 
     fn count(&mut self, kind: usize) -> bool {
@@ -152,16 +169,17 @@ impl Read for SimIo {
                 IoDec::Ready(k) => {
                     let k = k.min(want).min(ctx.inbound.len());
                     if k == 0 {
-                        ctx.rec(json!({"e":"rpend","want":want}));
+                        ctx.read_pending(want);
                         return Poll::Pending;
                     }
+                    ctx.spin = 0;
                     let bytes: Vec<u8> = ctx.inbound.drain(..k).collect();
                     buf[..k].copy_from_slice(&bytes);
                     ctx.rec(json!({"e":"r","want":want,"got":k,"bytes":bytes}));
                     Poll::Ready(Ok(k))
                 }
                 IoDec::Pending => {
-                    ctx.rec(json!({"e":"rpend","want":want}));
+                    ctx.read_pending(want);
                     Poll::Pending
                 }
                 IoDec::Eof => {
@@ -203,7 +221,7 @@ impl Write for SimIo {
                     Poll::Ready(Ok(k))
                 }
                 IoDec::Pending => {
-                    ctx.rec(json!({"e":"wpend","len":len,"b0":buf.first()}));
+                    ctx.rec(json!({"e":"wpend","len":len}));
                     Poll::Pending
                 }
                 IoDec::Eof | IoDec::Err => {
@@ -276,7 +294,9 @@ fn drive<F: Future>(ctx: &Shared, fut: F) -> Outcome<F::Output> {
         if c.tripped || c.mismatch.is_some() {
             return Outcome::Aborted;
         }
+        c.spin = 0;
         let view = c.view();
+        c.rec(json!({"e":"yield","wake":view.wakes.first().map(|w| *w as i64).unwrap_or(-1)}));
         match c.dir.pending(&view) {
             PendDec::Resume => {}
             PendDec::Cancel => {
@@ -368,7 +388,69 @@ pub fn from_property(p: &Property<'_>) -> Value {
         Property::SubscriptionIdentifierAvailable(v) => (0x29, *v as u64, &[], &[]),
         Property::SharedSubscriptionAvailable(v) => (0x2A, *v as u64, &[], &[]),
     };
-    json!({"id": id, "n": n, "s": a, "t": b})
+    prop_tla_parts(id, n, a, b)
+}
+
+/// TLC integers are 32-bit signed: four-byte property values travel as their big-endian bytes
+/// in `s` (with `n` = 0); every field is always present (TLC has no notion of an absent field).
+fn prop_tla_parts(id: u8, n: u64, a: &[u8], b: &[u8]) -> Value {
+    if matches!(id, 0x02 | 0x11 | 0x18 | 0x27) {
+        json!({"id": id, "n": 0, "s": (n as u32).to_be_bytes(), "t": []})
+    } else {
+        json!({"id": id, "n": n, "s": a, "t": b})
+    }
+}
+
+pub fn prop_tla(p: &Prop) -> Value {
+    prop_tla_parts(p.id, p.n, &p.s, &p.t)
+}
+
+fn props_tla(props: &[Prop]) -> Vec<Value> {
+    props.iter().map(prop_tla).collect()
+}
+
+fn opt_num<T: Into<i64>>(v: Option<T>) -> i64 {
+    v.map(Into::into).unwrap_or(-1)
+}
+
+/// The call event as the TLA+ side reads it (no nulls, no absent fields, no 64-bit numbers).
+pub fn call_tla(step: &Step, hn: usize) -> Value {
+    match step {
+        Step::Publish { qos, topic, payload, retain, props, corr, payload_fails } => json!({
+            "e":"publish","call":true,"hn":hn,"qos":qos,"topic":topic,"payload":payload,
+            "retain":retain,"props":props_tla(props),"hascorr":corr.is_some(),
+            "corr":corr.clone().unwrap_or_default(),"pfail":payload_fails}),
+        Step::Subscribe { filters, props } => json!({
+            "e":"subscribe","call":true,"hn":hn,"props":props_tla(props),
+            "filters":filters.iter().map(|f| json!({"topic":f.topic,"qos":f.qos,"nl":f.nl as u8,"rap":f.rap as u8,"rh":f.rh})).collect::<Vec<_>>()}),
+        Step::Unsubscribe { topics, props } => json!({
+            "e":"unsubscribe","call":true,"hn":hn,"props":props_tla(props),"topics":topics}),
+        Step::Poll {} => json!({"e":"poll","call":true,"hn":hn}),
+        Step::Recv {} => json!({"e":"recv","call":true,"hn":hn}),
+        Step::Drive {} => json!({"e":"drive","call":true,"hn":hn}),
+        Step::Disconnect { reason, props } => json!({
+            "e":"disconnect","call":true,"hn":hn,"reason":opt_num(*reason),
+            "hasprops":props.is_some(),"props":props_tla(props.as_deref().unwrap_or(&[]))}),
+        other => json!({"e":"badcall","what":format!("{other:?}")}),
+    }
+}
+
+pub fn cfg_tla(cfg: &Cfg) -> Value {
+    let will = match &cfg.will {
+        Some(w) => json!({"topic":w.topic,"payload":w.payload,"qos":w.qos,"retain":w.retain as u8,"props":props_tla(&w.props)}),
+        None => json!({"topic":[],"payload":[],"qos":0,"retain":0,"props":[]}),
+    };
+    let (user, pass) = match &cfg.auth {
+        Some(a) => (a.user.clone(), a.pass.clone()),
+        None => (vec![], vec![]),
+    };
+    json!({
+        "name": cfg.name, "rx": cfg.rx, "tx": cfg.tx, "client_id": cfg.client_id, "ka": cfg.ka,
+        "sei": cfg.sei.to_be_bytes(), "downgrade": cfg.downgrade,
+        "haswill": cfg.will.is_some(), "will": will,
+        "hasauth": cfg.auth.is_some(), "user": user, "pass": pass,
+        "first_id": cfg.first_id,
+    })
 }
 
 fn qos(q: u8) -> QoS {
@@ -450,18 +532,18 @@ pub fn snap_json(session: &Session<'_>) -> Value {
         "resumed": snap.session_resumed,
         "quota": snap.send_quota,
         "maxq": snap.max_send_quota,
-        "maxpkt": snap.maximum_packet_size,
-        "maxqos": snap.max_qos,
+        "maxpkt": opt_num(snap.maximum_packet_size.map(|v| v.min(i32::MAX as u32))),
+        "maxqos": opt_num(snap.max_qos),
         "ka": snap.keepalive_ms,
-        "np": snap.next_ping_ms,
-        "pt": snap.ping_timeout_ms,
+        "np": opt_num(snap.next_ping_ms.map(|v| v as i64)),
+        "pt": opt_num(snap.ping_timeout_ms.map(|v| v as i64)),
         "sids": snap.inbound_qos2.iter().copied().collect::<Vec<u16>>(),
         "used": snap.outbound.used,
         "cap": snap.outbound.capacity,
         "ret": ret,
         "rel": rel,
         "ctl": ctl,
-        "rd": [snap.reader_read_bytes, snap.reader_packet_length],
+        "rd": [snap.reader_read_bytes as i64, opt_num(snap.reader_packet_length.map(|v| v as i64))],
     })
 }
 
@@ -472,7 +554,7 @@ fn obs_session(ctx: &Shared, session: &Session<'_>, handles: &[Op]) -> Value {
         "live": false,
         "cp": [false, false, false],
         "q": session.is_publish_quiescent(),
-        "ev": Value::Null,
+        "ev": "N",
         "h": h,
         "io": c.io,
         "t": vclock::now_ms(),
@@ -522,10 +604,30 @@ fn msg_json(msg: &minimq::InboundPublish<'_>) -> Value {
         "qos": msg.qos() as u8,
         "retain": msg.retained(),
         "props": props,
-        "rt": msg.response_topic().map(|t| t.as_bytes().to_vec()),
-        "cd": msg.correlation_data().map(|d| d.to_vec()),
+        "hasrt": msg.response_topic().is_some(),
+        "rt": msg.response_topic().map(|t| t.as_bytes().to_vec()).unwrap_or_default(),
+        "hascd": msg.correlation_data().is_some(),
+        "cd": msg.correlation_data().map(|d| d.to_vec()).unwrap_or_default(),
         "reply": reply,
     })
+}
+
+/// Uniform result record for the TLA+ side: k = "ok" | "err" | "cancel", v = detail,
+/// code = reason code or -1, h = handle index or -1, hasmsg + msg.
+fn norm_result(r: &Value) -> Value {
+    let empty_msg = json!({"topic":[],"payload":[],"qos":0,"retain":false,"props":[],
+        "hasrt":false,"rt":[],"hascd":false,"cd":[],"reply":false});
+    let h = r.get("h").cloned().unwrap_or(json!(-1));
+    if let Some(ok) = r.get("ok") {
+        let hasmsg = r.get("msg").is_some();
+        json!({"k":"ok","v":ok,"code":-1,"h":h,"hasmsg":hasmsg,
+               "msg": r.get("msg").cloned().unwrap_or(empty_msg)})
+    } else if let Some(err) = r.get("err") {
+        json!({"k":"err","v":err,"code":r.get("code").cloned().unwrap_or(json!(-1)),"h":h,
+               "hasmsg":false,"msg":empty_msg})
+    } else {
+        json!({"k":"cancel","v":"cancel","code":-1,"h":h,"hasmsg":false,"msg":empty_msg})
+    }
 }
 
 // ------------------------------------------------------------------------------------------
@@ -553,10 +655,9 @@ pub fn run_scenario(cfg: &Cfg, dir: Box<dyn Director>) -> RunResult {
         has_conn: false,
         live: false,
         last_snap: None,
-        verbose_snap: true,
+        spin: 0,
     }));
-    ctx.borrow_mut()
-        .rec(json!({"e":"cfg","cfg":serde_json::to_value(cfg).unwrap()}));
+    ctx.borrow_mut().rec(json!({"e":"cfg","cfg":cfg_tla(cfg)}));
     let result = catch_unwind(AssertUnwindSafe(|| run_inner(cfg, &ctx)));
     let mut panicked = None;
     if let Err(payload) = result {
@@ -576,7 +677,7 @@ pub fn run_scenario(cfg: &Cfg, dir: Box<dyn Director>) -> RunResult {
         Ok(c) => c,
         Err(_) => {
             return RunResult {
-                lines: vec![json!({"e":"cfg","cfg":serde_json::to_value(cfg).unwrap()}).to_string(),
+                lines: vec![json!({"e":"cfg","cfg":cfg_tla(cfg)}).to_string(),
                             json!({"e":"panic","msg":"panic inside transport","op":""}).to_string()],
                 mismatch: None,
                 panicked,
@@ -707,7 +808,7 @@ fn run_inner(cfg: &Cfg, ctx: &Shared) {
                         {
                             let mut c = ctx.borrow_mut();
                             c.dir.returned("conn", &r, &obs);
-                            c.rec(json!({"e":"ret","op":"conn","r":r,"obs":obs,"snap":snap}));
+                            c.rec(json!({"e":"ret","op":"conn","r":norm_result(&r),"obs":obs,"snap":snap}));
                         }
                         conn_loop(ctx, &mut conn, &mut handles);
                         drop(conn);
@@ -725,7 +826,7 @@ fn run_inner(cfg: &Cfg, ctx: &Shared) {
                         let r = err_json(&err);
                         let mut c = ctx.borrow_mut();
                         c.dir.returned("conn", &r, &obs);
-                        c.rec(json!({"e":"ret","op":"conn","r":r,"obs":obs,"snap":snap}));
+                        c.rec(json!({"e":"ret","op":"conn","r":norm_result(&r),"obs":obs,"snap":snap}));
                     }
                     Outcome::Cancelled => {
                         let obs = obs_session(ctx, &session, &handles);
@@ -801,10 +902,7 @@ fn conn_loop(ctx: &Shared, conn: &mut Connection<'_, 'static, SimIo>, handles: &
         {
             let mut c = ctx.borrow_mut();
             c.op = opname.to_string();
-            let mut ev = serde_json::to_value(&step).unwrap();
-            ev["call"] = json!(true);
-            ev["hn"] = json!(handles.len());
-            c.rec(ev);
+            c.rec(call_tla(&step, handles.len()));
         }
         // Each arm produces `Outcome<(result json, Option<Op>)>`.
         let outcome: Outcome<(Value, Option<Op>)> = match &step {
@@ -942,6 +1040,7 @@ fn conn_loop(ctx: &Shared, conn: &mut Connection<'_, 'static, SimIo>, handles: &
         };
         match outcome {
             Outcome::Ready((mut r, op)) => {
+                r["h"] = json!(-1);
                 if let Some(op) = op {
                     r["h"] = json!(handles.len());
                     handles.push(op);
@@ -950,7 +1049,7 @@ fn conn_loop(ctx: &Shared, conn: &mut Connection<'_, 'static, SimIo>, handles: &
                 let snap = snap_json(conn.session());
                 let mut c = ctx.borrow_mut();
                 c.dir.returned(opname, &r, &obs);
-                c.rec(json!({"e":"ret","op":opname,"r":r,"obs":obs,"snap":snap}));
+                c.rec(json!({"e":"ret","op":opname,"r":norm_result(&r),"obs":obs,"snap":snap}));
             }
             Outcome::Cancelled => {
                 let obs = obs_conn(ctx, conn, handles);
